@@ -1,5 +1,4 @@
 package main
 
-func confRun()     {}
 func determRun()   {}
 func determChild() {}
